@@ -2131,3 +2131,56 @@ class ExtractAndSummarize(Unit):
             if ctx.is_true(z3.And(hdr_ok(k), sel(k), z3.Not(sd))):
                 P.prove(len(ctx.stderr) == 1, "a decode failure is reported on stderr")
         P.prove([e_ for e_ in ctx.fs if e_[0] not in ('open_r',)] == [], "no file-system change")
+
+
+# ------------------------------------------------------------------ bounded companion of getFileList: real directories, awkward names
+class GetFileListNative(Unit):
+    """real temporary directories whose file names are prefixes of one another, contain characters that sort below '.',
+    several dots, no extension, leading dots; a sub-directory with files; against sorted() of the filtered top-level names"""
+    prop = "C08"
+    name = "getFileList on generated directories (bounded)"
+    target = PM + "getFileList"
+    kind = 'B'
+    modes = ('assert',)
+
+    def inputs(self, S):
+        if hasattr(S, 'rng'):
+            r = S.rng
+            stems = ["pel1", "pel1-copy", "pel1 (2)", "pel1.old", "pel10", "PEL1", "a", "a-b", "a.b", "a+b", ".hidden", "x.", "_x", "Z", "0"]
+            exts = [".pel", ".bin", "", ".PEL", ".pel.bak"]
+            names = sorted({r.choice(stems) + r.choice(exts) for _ in range(r.randrange(0, 7))})
+            sub = sorted({r.choice(stems) + r.choice(exts) for _ in range(r.randrange(0, 3))})
+            ext = r.choice([None, "", ".pel", ".bin", ".old"])
+            rev = r.random() < 0.5
+            S.log.update(names=names, sub=sub, ext=ext, rev=rev)
+        else:
+            v = S.values
+            names, sub, ext, rev = v['names'], v['sub'], v['ext'], v['rev']
+        return dict(names=names, sub=sub, extension=ext, rev=rev)
+
+    def call_native(self, inp):
+        import tempfile, shutil, os
+        from pel.peltool import peltool
+        d = tempfile.mkdtemp(prefix="pyvc_gfl_")
+        try:
+            for n in inp['names']:
+                open(os.path.join(d, n), 'wb').close()
+            os.mkdir(os.path.join(d, "archive"))
+            for n in inp['sub']:
+                open(os.path.join(d, "archive", n), 'wb').close()
+            root, lst = peltool.getFileList(d, inp['extension'], inp['rev'])
+            return (root == d, list(lst))
+        finally:
+            shutil.rmtree(d, ignore_errors=True)
+
+    def check(self, P, inp, old, out):
+        import os
+        P.prove(out.returned, "returns")
+        if not out.returned:
+            return
+        same_root, lst = out.value
+        ext = inp['extension']
+        want = sorted([n for n in inp['names'] if not ext or os.path.splitext(n)[1] == ext], reverse=inp['rev'])
+        P.prove(same_root, "the directory returned is the one asked for")
+        P.prove(lst == want, "the top-level names with the requested extension, in file-name order (reversed with --reverse); "
+                "nothing from sub-directories")
